@@ -163,7 +163,8 @@ class _Gen:
     def maybe_id(self, e, p=0.45):
         if self.ch.coin(0.02):
             # an id that is falsy as a Python value: still an id (never referenced by the generator's own uses)
-            v = self.ch.choice(["", "0"])
+            # ("0", not "": a use written href="#" - one of the dangling spellings - would resolve to an empty id)
+            v = self.ch.choice(["0", "0"])
             if v not in self.falsy_ids:  # ids stay unique: a duplicate would make the removal of one element re-target uses
                 self.falsy_ids.add(v)
                 e["attrs"]["id"] = v
@@ -397,7 +398,7 @@ def by_id(root):
     out = {}
     for e in walk(root):
         i = e["attrs"].get("id")
-        if i and i not in out:
+        if i is not None and i not in out:
             out[i] = e
     return out
 
@@ -729,7 +730,7 @@ def exempt_set(root, offending):
             if e["tag"] != "use":
                 continue
             _, h = href_of(e)
-            tgt = ids.get(h[1:]) if h and len(h) > 1 else None
+            tgt = ids.get(h[1:]) if h else None  # (href="#" names the empty id, as the library resolves it)
             if tgt is None:
                 continue
             tset = {x["n"] for x in walk(tgt)}
@@ -767,7 +768,7 @@ def referenced_by(root, offending):
             continue
         seen.add(id(u))
         _, h = href_of(u)
-        tgt = ids.get(h[1:]) if h and len(h) > 1 else None
+        tgt = ids.get(h[1:]) if h else None  # (href="#" names the empty id, as the library resolves it)
         if tgt is None:
             continue
         for x in walk(tgt):
